@@ -155,6 +155,10 @@ def plan(tier, seed):
                 for (know, reply, d) in modes:
                     for src in range(sum(v)):
                         items.append(("tree", topo, cache, know, reply, d, src))
+            # stations that learn their network number after they learned their routes
+            if n <= 4 and not big:
+                for src in range(sum(v)):
+                    items.append(("tree", topo, "nwarm", "U", "now", 1, src))
     # P
     for (n, routers) in shapes:
         if n > (3 if quick else 4):
@@ -438,7 +442,7 @@ def shard(item, deadline):
     if part == "tree":
         _, _, cache, know, reply, bound, src = item
         base.update({"cache": cache, "know": know, "reply": reply})
-        learned = _learn(topo, know) if cache in ("warm", "rwarm", "rcold") else None
+        learned = _learn(topo, know) if cache in ("warm", "rwarm", "rcold", "nwarm") else None
         for di, dest in enumerate(tree_scenarios(ref, know, src)):
             if time.time() > deadline:
                 acc.cap("deadline inside a (configuration, source) shard of the tree part")
@@ -603,7 +607,7 @@ def replay(case):
     topo = case["topo"]
     ref = F.Ref(topo)
     part = case["part"]
-    learned = _learn(topo, case["know"]) if case["cache"] in ("warm", "rwarm", "rcold") else None
+    learned = _learn(topo, case["know"]) if case["cache"] in ("warm", "rwarm", "rcold", "nwarm") else None
     tables = ref.routing_tables() if case["cache"] == "preset" else None
     nodes = len(ref.stations) + len(ref.routers)
     if part == "ring":
